@@ -121,9 +121,10 @@ class Report:
                     print(f"  control not fired: {c['rule']} / {c['control']} ({c['note']})")
             for ln in lines:
                 print(ln)
-        if self.errors:
-            return 2
-        return 1 if new else 0
+        # a violation found is a violation even if the checker also tripped over itself
+        if new:
+            return 1
+        return 2 if self.errors else 0
 
     def _write_evidence(self, n_viol: int, n_known: int) -> None:
         os.makedirs(EVIDENCE_DIR, exist_ok=True)
